@@ -111,7 +111,7 @@ func runC18(r *Run) {
 	}
 	mf := drawMeasurement(t)
 	key := primKey(mf.name)
-	n := 5 + t.Intn(196, "ops")
+	n := 5 + t.Intn(scale(196, 600), "ops")
 	base := []float64{1e6, 100, 5e7, 3}[t.Intn(4, "base")]
 	var ops []measOp
 	for i := 0; i < n; i++ {
